@@ -1359,8 +1359,8 @@ func (g *generator) nextInner() Op {
 				if filterDeckPos >= len(filterDeck) {
 					filterDeck = filterDeck[:0]
 					for ar := 0; ar <= 12; ar++ {
-						for _, m := range []string{"Exclusive", "With", "Without", "Without2", "WithoutLate", "Optional", "WithRelation", "Register"} {
-							if m == "Without2" && ar > 10 {
+						for _, m := range []string{"Exclusive", "With", "With2", "Without", "Without2", "WithoutLate", "Optional", "WithRelation", "Register"} {
+							if (m == "Without2" || m == "With2") && ar > 10 {
 								continue
 							}
 							if m == "WithoutLate" && ar == 0 {
@@ -1390,7 +1390,23 @@ func (g *generator) nextInner() Op {
 				case "With", "Without":
 					b.Ids = g.subset(g.x.compNums, 1)
 				case "Optional":
-					b.Ids = g.subset(seqIDs(c.ar), 2)
+					// the last type parameter becomes optional: the entity created below without it must then be selected.
+					// The argument list may name a type the filter does not have first, or a type twice - neither may keep
+					// the arguments after it from taking effect
+					own := c.ar - 1
+					switch g.rng.Intn(4) {
+					case 0:
+						b.Ids = []int{c.ar, own} // c.ar: not a type parameter of this filter
+					case 1:
+						b.Ids = []int{own}
+						if c.ar >= 2 {
+							b.Ids = []int{c.ar - 2, c.ar - 2, own}
+						}
+					case 2:
+						b.Ids = []int{own}
+					default:
+						b.Ids = g.subset(seqIDs(c.ar), 2)
+					}
 				case "WithRelation":
 					b.Ids = []int{2}
 					if g.pct(50) {
@@ -1404,6 +1420,29 @@ func (g *generator) nextInner() Op {
 					if c.ar < 12 {
 						plan = append(plan, Op{Op: "BuilderNew", Api: "generic.Map.New", Ar: c.ar + 1, Tgt: -1})
 					}
+				}
+				if c.api == "Optional" {
+					// the entity an optional last parameter lets in
+					if c.ar >= 2 {
+						plan = append(plan, Op{Op: "BuilderNew", Api: "generic.Map.New", Ar: c.ar - 1, Tgt: -1})
+					} else {
+						plan = append(plan, Op{Op: "NewEntity", Api: "World.NewEntity", Ids: []int{}})
+					}
+				}
+				if c.api == "With2" {
+					// two With calls, one after the other use: the second one must add to the first one's components, not
+					// replace them - the entity that only has the second component stays out
+					x, y := c.ar, c.ar+1
+					e1 := Op{Op: "NewEntity", Api: "World.NewEntity", Ids: append(seqIDs(c.ar), y)}
+					e2 := Op{Op: "BuilderNew", Api: "generic.Map.New", Ar: c.ar + 2, Tgt: -1}
+					b1 := Op{Op: "GBuild", Api: "generic.Filter.With", Qi: gi, Ids: []int{x}, Tgt: -1}
+					b2 := Op{Op: "GBuild", Api: "generic.Filter.With", Qi: gi, Ids: []int{y}, Tgt: -1}
+					if g.pct(50) {
+						g.plan = []Op{e1, e2, b1, q, b2, q}
+					} else {
+						g.plan = []Op{e1, e2, b1, b2, q}
+					}
+					return Op{Op: "GNewFilter", Api: "generic.NewFilter", Ar: c.ar}
 				}
 				if c.api == "WithoutLate" {
 					// the filter excludes a component type the world has not registered yet, is used (compiled), then the
